@@ -131,6 +131,63 @@ func c04PassEdges(fn *ssa.Function, g *gateInfo, same func(ssa.Value) bool) (pla
 			pipe[[2]int{iff.Block().Index, fEdge}] = true
 		}
 	}
+	// a branch on a boolean built with && / || (eligible := gate(cmd) && (...)):
+	// its true edge establishes a gate when every way the boolean can be true
+	// does — the value is the classifier's own verdict, or it is the constant
+	// true arriving only over edges on which the gate has already passed
+	gname = ssau.FuncName(g.fn)
+	for _, iff := range ssau.Ifs(fn) {
+		phi, ok := iff.Cond.(*ssa.Phi)
+		if !ok {
+			continue
+		}
+		for _, kind := range []string{"plat", "pipe"} {
+			edges := plat
+			if kind == "pipe" {
+				edges = pipe
+			}
+			reach := reachableFromEntry(fn, edges)
+			var implies func(v ssa.Value, p, to *ssa.BasicBlock, d int) bool
+			implies = func(v ssa.Value, p, to *ssa.BasicBlock, d int) bool {
+				if ssau.IsConstBool(v, false) {
+					return true
+				}
+				if call, isCall := v.(*ssa.Call); isCall {
+					n := ssau.CallName(call)
+					if kind == "plat" && n == gname && same(call.Common().Args[g.cmdP]) {
+						return true
+					}
+					if kind == "pipe" && strings.HasSuffix(n, "/database.isPipelineCommand") && same(call.Common().Args[0]) {
+						return true
+					}
+				}
+				if inner, isPhi := v.(*ssa.Phi); isPhi && d < 4 {
+					for i, e := range inner.Edges {
+						if !implies(e, inner.Block().Preds[i], inner.Block(), d+1) {
+							return false
+						}
+					}
+					return len(inner.Edges) > 0
+				}
+				// any other value may be true: the gate must already have passed on the way
+				for k, sc := range p.Succs {
+					if sc == to && edges[[2]int{p.Index, k}] {
+						return true
+					}
+				}
+				return !reach[p]
+			}
+			all := true
+			for i, e := range phi.Edges {
+				if !implies(e, phi.Block().Preds[i], phi.Block(), 0) {
+					all = false
+				}
+			}
+			if all && len(phi.Edges) > 0 {
+				edges[[2]int{iff.Block().Index, 0}] = true
+			}
+		}
+	}
 	return
 }
 
@@ -257,6 +314,37 @@ func runC04(c *Ctx) {
 		r.Check(len(plat) > 0 && !reachP[at], "O-1", key+":platform-gate", c.P.Pos(pos), "unreachable unless "+g.fn.Name()+"(this command, options, …) returned true", "a command can enter the answer without the platform filter having passed for it")
 		r.Check(len(pipe) > 0 && !reachL[at], "O-1", key+":pipeline-gate", c.P.Pos(pos), "unreachable unless !PipelineOnly or isPipelineCommand(this command)", "a command can enter the answer of a pipeline-only search without the pipeline test having passed for it")
 	}
+	// the slices handed to the typo matcher, wherever they are made: in the
+	// function that calls the matcher or in a helper that returns them
+	matcherData := map[ssa.Value]bool{}
+	filledIn := map[*ssa.Call]bool{}
+	for _, fn := range scope {
+		if pk := c.P.PkgOfFunc(fn); pk == nil || pk.PkgPath != dbPkg || fn.Name() == "GetSuggestions" {
+			continue
+		}
+		for _, fc := range callsTo(fn, fuzzyFind) {
+			data := fc.Common().Args[1]
+			matcherData[data] = true
+			if home, mk, _ := sliceBuilder(c, data); mk != nil {
+				matcherData[mk] = true
+				inScope := false
+				for _, g := range scope {
+					if g == home {
+						inScope = true
+					}
+				}
+				for _, ref := range *mk.Referrers() {
+					if ia, ok := ref.(*ssa.IndexAddr); ok && inScope {
+						for _, r2 := range *ia.Referrers() {
+							if _, ok := r2.(*ssa.Store); ok {
+								filledIn[fc] = true
+							}
+						}
+					}
+				}
+			}
+		}
+	}
 	for _, fn := range scope {
 		pk := c.P.PkgOfFunc(fn)
 		if pk == nil || pk.PkgPath != dbPkg {
@@ -307,12 +395,7 @@ func runC04(c *Ctx) {
 				if !ok {
 					return
 				}
-				isData := false
-				for _, fc := range callsTo(fn, fuzzyFind) {
-					if fc.Common().Args[1] == ia.X {
-						isData = true
-					}
-				}
+				isData := matcherData[ia.X]
 				if !isData {
 					return
 				}
@@ -383,7 +466,7 @@ func runC04(c *Ctx) {
 				continue // matches vocabulary words, produces no search results
 			}
 			data := fc.Common().Args[1]
-			filled := false
+			filled := filledIn[fc]
 			if refs := data.Referrers(); refs != nil {
 				for _, ref := range *refs {
 					if ia, ok := ref.(*ssa.IndexAddr); ok && ia.X == data {
